@@ -4,6 +4,7 @@
 //! index choices are monotone in the byte value so that shrinking bytes towards
 //! zero shrinks the decoded case.
 
+#[derive(Clone)]
 pub struct Tape<'a> {
     data: &'a [u8],
     pos: usize,
